@@ -231,15 +231,11 @@ func TestC17_Grid(t *testing.T) {
 		for _, sc := range scriptErrTop {
 			cmds = append(cmds, []string{"EVAL", sc, "0"}, []string{"EVALRO", sc, "0"})
 		}
-	} else {
-		c.Excluded(idEvalErrOK)
 	}
 	if !ex.bigNum {
 		for _, sc := range scriptBigNum {
 			cmds = append(cmds, []string{"EVAL", sc, "0"}, []string{"EVALNA", sc, "0"})
 		}
-	} else {
-		c.Excluded(idEvalBigNum)
 	}
 	if !ex.nonFinite {
 		cmds = append(cmds, []string{"SET", "fleet", "nf", "POINT", "nan", "inf"}, []string{"GET", "fleet", "nf", "POINT"}, []string{"SCAN", "fleet", "BOUNDS"}, []string{"NEARBY", "fleet", "DISTANCE", "POINT", "1", "2"}, []string{"DEL", "fleet", "nf"})
